@@ -795,7 +795,13 @@ static int run_batch() {
   uint64_t worker_restarts = 0;
   std::vector<std::string> samples;
 
+  // UBSan reports without a memory effect (null reference to an element that is
+  // never read, memcpy(nullptr, 0), out-of-range enum load) are defects of the
+  // code but not violations of C11 as stated (it forbids out-of-input reads and
+  // memory corruption): they are counted and shown, never alarmed on.
+  static std::map<std::string, uint64_t> ub_reports;
   auto on_violation = [&](uint64_t index, const EvalSpec& e, const Outcome& o) {
+    if (o.cls == "ub") { ub_reports[o.site]++; return; }
     for (auto& k : known)
       if (k.cls == o.cls && k.site == o.site) {
         ++k.count;
@@ -1116,6 +1122,9 @@ static int run_batch() {
             (unsigned long long)g_sh->cases.load(), (unsigned long long)g_sh->evals_roundtrip.load(), (unsigned long long)g_sh->evals_hostile.load(),
             (unsigned long long)g_sh->parse_ok.load(), (unsigned long long)g_sh->parse_fail.load(), (unsigned long long)g_sh->fixpoint_checked.load(),
             (unsigned long long)g_sh->reached.load());
+    fprintf(f, "  \"ub_reports_outside_property\": {");
+    { bool first = true; for (auto& kv : ub_reports) { fprintf(f, "%s\"%s\": %llu", first ? "" : ", ", json_escape(kv.first).c_str(), (unsigned long long)kv.second); first = false; } }
+    fprintf(f, "},\n");
     fprintf(f, "  \"faults_fired\": {");
     for (int k = 1; k < N_FAULT_KINDS; ++k)
       fprintf(f, "%s\"%s\": %llu", k > 1 ? ", " : "", fault_name(k), (unsigned long long)g_sh->fault_reached[k].load());
@@ -1185,7 +1194,7 @@ int main(int argc, char** argv) {
     else if (a == "--replay-dir") o.replay_dir = val();
     else if (a == "--known") o.known.push_back(val());
     else if (a == "--replay") o.replay = val();
-    else if (a == "--level" || a == "--mode") val();  // accepted for CLI compatibility with the simulator harnesses
+    else if (a == "--level" || a == "--mode" || a == "--flavour") val();  // accepted for CLI compatibility with the simulator harnesses
     else if (a == "--cases") o.cases = atol(val().c_str());
     else if (a == "--all") o.all = true;
     else if (a == "--one") o.one = atol(val().c_str());
